@@ -222,6 +222,8 @@ func Run(ctx context.Context, stmt ast.Stmt, setup Setup) (obs Obs, id int64) {
 	})
 	e.Define("pe", func(cb func(int64)) { cb(1); cb(2) }) // a callback type without results
 	e.Define("harr", [3]int64{1, 2, 3}) // an unaddressable Go array: slicing it panics inside reflect
+	e.Define("hnm", map[string]int64(nil)) // nil containers of concrete Go types: an empty map and an empty list to a script
+	e.Define("hnl", []int64(nil))
 	if setup != nil {
 		setup(e)
 	}
@@ -247,7 +249,7 @@ func Run(ctx context.Context, stmt ast.Stmt, setup Setup) (obs Obs, id int64) {
 	obs.Log = log
 	mu.Unlock()
 	for _, s := range e.GetValueSymbols() {
-		if s == "p" || s == "pv" || s == "pn" || s == "pa" || s == "pp" || s == "ch" || s == "pe" || s == "harr" {
+		if s == "p" || s == "pv" || s == "pn" || s == "pa" || s == "pp" || s == "ch" || s == "pe" || s == "harr" || s == "hnm" || s == "hnl" {
 			continue
 		}
 		v, gerr := e.Get(s)
